@@ -32,6 +32,7 @@ Inductive cont := KDone | KRetry | KUnlock.
 
 Inductive local :=
 | LAcq (s : nat)                       (* session loaded, before the increment *)
+| LAcqBack (s : nat)                   (* incremented a closed session, before backing off through Release *)
 | LRelZero (s : nat) (k : cont)        (* decrement reached the offset *)
 | LRelLatched (s : nat) (k : cont)     (* closed latch won, before the queue insert *)
 | LRelQueued (s : nat) (k : cont)      (* queued, before the try-lock *)
@@ -126,8 +127,9 @@ Definition step (tid : nat) (l : local) (p : pers) (sh : shared) : shared * pers
     let x := get sh s in
     let nl := live x + 1 in
     let sh1 := upd_sess sh s (mkSess nl (closed x) (seqno x) (oref x)) in
-    if offset <? nl then rel_dec s KRetry p sh1
+    if offset <? nl then (sh1, p, inl (LAcqBack s))
     else (sh1, s :: p, inr (RTok s))
+  | LAcqBack s => rel_dec s KRetry p sh
   | LRelZero s k =>
     let x := get sh s in
     let sh1 := upd_sess sh s (mkSess (live x) (S (closed x)) (seqno x) (oref x)) in
